@@ -94,3 +94,27 @@ Proof.
     destruct (num_rank Rops sv nr nc eps) eqn:En; [cbn; rewrite Rinv_0; lra || (unfold Rdiv; lra) | left; apply Rinv_0_lt_compat, lt_0_INR; lia].
   - rewrite fsum_map_div. field. lra.
 Qed.
+
+(* ---------- the axis argument: NumPy's normalisation of negative axes ---------- *)
+Local Close Scope R_scope.
+From Coq Require Import ZArith.
+Theorem norm_axis_spec (z : Z) (nd : nat) :
+  match norm_axis z nd with
+  | Ok a => (a < nd)%nat /\ ((0 <= z)%Z /\ Z.of_nat a = z \/ (z < 0)%Z /\ Z.of_nat a = (z + Z.of_nat nd)%Z)
+  | Err => (z < - Z.of_nat nd)%Z \/ (Z.of_nat nd <= z)%Z
+  end.
+Proof.
+  unfold norm_axis.
+  destruct ((0 <=? z)%Z) eqn:E1; destruct ((z <? Z.of_nat nd)%Z) eqn:E2; cbn [andb].
+  - apply Z.leb_le in E1. apply Z.ltb_lt in E2. split; [lia|]. left. split; [exact E1 | apply Z2Nat.id; exact E1].
+  - apply Z.leb_le in E1. apply Z.ltb_ge in E2.
+    destruct ((- Z.of_nat nd <=? z)%Z); destruct ((z <? 0)%Z) eqn:E4; cbn [andb]; try (right; exact E2).
+    apply Z.ltb_lt in E4. lia.
+  - apply Z.leb_gt in E1. apply Z.ltb_lt in E2.
+    destruct ((- Z.of_nat nd <=? z)%Z) eqn:E3; destruct ((z <? 0)%Z) eqn:E4; cbn [andb].
+    + apply Z.leb_le in E3. split; [lia|]. right. split; [exact E1 | apply Z2Nat.id; lia].
+    + apply Z.ltb_ge in E4. lia.
+    + apply Z.leb_gt in E3. left. exact E3.
+    + apply Z.ltb_ge in E4. lia.
+  - apply Z.leb_gt in E1. apply Z.ltb_ge in E2. lia.
+Qed.
